@@ -59,8 +59,8 @@ def gen_task(job):
             hyps, goal = task.builder(z3)
             from pyvc.ctx import Obligation
             o = Obligation(f"lemma.{task.name}", "lemma", "<lemma>", 0, list(hyps), goal, [])
-            qf, full, triv = serialize(o)
-            out["obligations"].append(dict(name=o.name, kind="lemma", func="<lemma>", line=0, qf=qf, full=full, trivial=triv,
+            qf, full, triv, refute = serialize(o)
+            out["obligations"].append(dict(name=o.name, kind="lemma", func="<lemma>", line=0, qf=qf, full=full, trivial=triv, refute=refute,
                                            decisions=[], note="", expect=task.expect))
             out.update(paths=1, returns=0, raises={}, functions=[], covers=[], gen_s=round(time.time() - t0, 3), externals=[])
             return out
@@ -75,8 +75,8 @@ def gen_task(job):
             return holder["it"]
         res = run_task(factory, task.target, contract, name=task.name, args_builder=task.args_builder, setup=task.setup, **task.opts)
         for o in res.obligations:
-            qf, full, triv = serialize(o)
-            out["obligations"].append(dict(name=o.name, kind=o.kind, func=o.func, line=o.line, qf=qf, full=full, trivial=triv,
+            qf, full, triv, refute = serialize(o)
+            out["obligations"].append(dict(name=o.name, kind=o.kind, func=o.func, line=o.line, qf=qf, full=full, trivial=triv, refute=refute,
                                            decisions=o.decisions[-12:], note=o.note, expect="sat" if o.kind == "canary" else "unsat"))
         out.update(paths=res.paths, returns=res.returns, raises=res.raises, functions=sorted(res.functions),
                    covers=sorted([list(k) for k in res.covers]), gen_s=round(res.gen_s, 3),
@@ -122,7 +122,7 @@ def main(argv=None):
         for g in gens:
             for o in g["obligations"]:
                 idx = len(jobs)
-                jobs.append((idx, o["qf"], o["full"], o["trivial"], timeout_ms, True, both and o["expect"] == "unsat"))
+                jobs.append((idx, o["qf"], o["full"], o["trivial"], timeout_ms, True, both and o["expect"] == "unsat", o["expect"], o.get("refute")))
                 meta.append(dict(task=g.get("task", "?"), name=o["name"], kind=o["kind"], func=o["func"], line=o["line"],
                                  expect=o["expect"], decisions=o["decisions"], note=o["note"],
                                  size=len((o["full"][1] if isinstance(o["full"], tuple) else o["full"]) or "")))
